@@ -10,11 +10,24 @@
 EXTENDS Registry, TLC, IOUtils, Json, CSV, FiniteSets
 
 MaxLen == atoi(IOEnv.LEN)
-Alphabet == { 48, 49, 50, 51, 55, 56, 57, 46, 43, 45, 32, 120 }     \* 0 1 2 3 7 8 9 . + - space x
+Alphabet == { 48, 49, 50, 51, 52, 55, 56, 57, 46, 43, 45, 32, 120 }     \* 0 1 2 3 4 7 8 9 . + - space x
+
+\* numbers that only fit a wider integer than a byte: a field parsed as such and then narrowed must not alias
+\* a real code (class and detail fields drawn from this list, every pair)
+Digits(str) == CASE str = "0" -> << 48 >> [] str = "4" -> << 52 >> [] str = "7" -> << 55 >> [] str = "8" -> << 56 >>
+                 [] str = "31" -> << 51, 49 >> [] str = "32" -> << 51, 50 >> [] str = "04" -> << 48, 52 >>
+                 [] str = "255" -> << 50, 53, 53 >> [] str = "256" -> << 50, 53, 54 >> [] str = "260" -> << 50, 54, 48 >>
+                 [] str = "263" -> << 50, 54, 51 >> [] str = "264" -> << 50, 54, 52 >> [] str = "287" -> << 50, 56, 55 >>
+                 [] str = "288" -> << 50, 56, 56 >> [] str = "512" -> << 53, 49, 50 >> [] str = "65540" -> << 54, 53, 53, 52, 48 >>
+                 [] str = "4294967300" -> << 52, 50, 57, 52, 57, 54, 55, 51, 48, 48 >>
+                 [] str = "18446744073709551620" -> << 49, 56, 52, 52, 54, 55, 52, 52, 48, 55, 51, 55, 48, 57, 53, 53, 49, 54, 50, 48 >>
+Fields == { Digits(x) : x \in { "0", "4", "7", "8", "31", "32", "04", "255", "256", "260", "263", "264", "287", "288", "512", "65540",
+                                "4294967300", "18446744073709551620" } }
+BigTexts == { c \o << CH_DOT >> \o d : c \in Fields, d \in Fields }
 
 VARIABLE t
-Init == t = << >>
-Next == Len(t) < MaxLen /\ \E c \in Alphabet : t' = Append(t, c)
+Init == t = << >> \/ t \in BigTexts
+Next == Len(t) < MaxLen /\ t \notin BigTexts /\ \E c \in Alphabet : t' = Append(t, c)
 Spec == Init /\ [][Next]_t
 
 PrintedForm(b) == << 48 + (b \div 32), CH_DOT, 48 + ((b % 32) \div 10), 48 + ((b % 32) % 10) >>
